@@ -206,7 +206,7 @@ def register_endpoints(R):
         raises={"BaseException": [("connection-close-requested-on-failure-and-cancellation (also while waiting for the send lock)", cl, "C14"),
                                   ("lock-released", f"not {lock}", "C12")]},
         modifies=[cl, "self.__closing", lock, other, g_srv, "ghost.locks_held"],
-        env={"rely_havoc": [other, g_srv], "rely_inv": [f"implies({g_srv}, {other})"]},
+        env={"rely_havoc": [other, g_srv], "rely_inv": [f"implies({g_srv}, {other})", f"implies({lock}, not {other})"]},
         tags="C14",
     )
     # clients
@@ -226,7 +226,7 @@ def register_endpoints(R):
         raises={"BaseException": [("connection-close-requested-on-failure-and-cancellation (also while waiting for the send lock)", ep, "C14"),
                                   ("lock-released", f"not {lock}", "C12")]},
         modifies=[ep_closed, "self.__socket_connector", lock, other, g_cli, "ghost.locks_held"] + recv_mod,
-        env={"rely_havoc": [other, g_cli], "rely_inv": [f"implies(not isnone(self.__endpoint) and {g_cli}, {other})"]},
+        env={"rely_havoc": [other, g_cli], "rely_inv": [f"implies(not isnone(self.__endpoint) and {g_cli}, {other})", f"implies({lock}, not {other})"]},
         tags="C14",
     )
 
